@@ -21,6 +21,11 @@ from streamworld import sw, pynode as P, cppnode as C, runner
 PROP = "C05"
 
 
+class MustFail(Exception):
+    """The value has no counterpart in the target type and the documentation names the case as a runtime error
+    ("Numeric overflow when converting between numbers"): finishing normally with some other number is not a conversion."""
+
+
 class Unconvertible(Exception):
     pass
 
@@ -116,7 +121,7 @@ def convert(env_a, ta, env_b, tb, v):
         if ra.name in ints and rb.name in ints:
             lo, hi = ints[rb.name]
             if not (lo <= v <= hi):
-                raise Unconvertible("integer overflow")
+                raise MustFail("integer overflow: %d does not fit %s" % (v, rb.name))
             return v
         if ra.name == "float32" and rb.name == "float64":
             return v
@@ -201,6 +206,7 @@ def make_chain(rng):
             # (not the element type of evo6: yardl - also the pinned upstream - reports an unchanged `stream<T?>` step as an
             #  incompatible change once another step of type `T?` was changed in the same protocol; a verdict matter, C06)
             d.steps.append(("evo7", M.Opt(M.Prim(rng.choice(["int16", "int8"]))), False))
+            d.steps.append(("evo10", M.Vec(M.Opt(M.Prim(rng.choice(["int32", "uint16", "float32"])))), False))
     must = ()
     if len(recs) >= 2 and rng.chance(0.6):
         # one generic record instantiated with two different records that the edits below may change: the
@@ -225,10 +231,12 @@ def make_chain(rng):
             must = (args[0].name, args[1].name)      # both instantiations' arguments change between versions
     for r in recs:
         if rng.chance(0.6):
-            r.fields.append(("vecfield%d" % rng.randint(1, 99), M.Vec(M.Prim(rng.choice(["int32", "int16", "float32"])))))
+            el = M.Prim(rng.choice(["int32", "int16", "float32"]))
+            r.fields.append(("vecfield%d" % rng.randint(1, 99), M.Vec(M.Opt(el) if rng.chance(0.4) else el)))
     k = rng.fork("chainshape")
     newest = E.with_versions(base, rng.fork("ver"), k.choice([1, 2, 2, 3]), partial=True, must_edit=must,
-                             order=k.choice(["oldest_first", "oldest_first", "newest_first", "shuffled"]), p_new_protocol=k.choice([0.0, 0.4]))
+                             order=k.choice(["oldest_first", "oldest_first", "newest_first", "shuffled"]), p_new_protocol=k.choice([0.0, 0.4]),
+                             widen_steps=("evo3", "evo4", "evo6", "evo7", "evo10"))
     return newest
 
 
@@ -293,6 +301,11 @@ def run_modes(model, cm, old_models, proto, rng, stats, viols, ctx, only=None):
                 want = convert_protocol(env_new, proto, ns, old_env, old_proto, ns, mid)
                 dec = lambda out: codec_old.decode_stream(old_proto, ns, out, old_schema)[0]
                 tgt_env, tgt_proto = old_env, old_proto
+        except MustFail as e:
+            stats["reference_says_numeric_overflow"] = stats.get("reference_says_numeric_overflow", 0) + 1
+            if res["ok"]:
+                viols.append(({"class": "numeric_overflow_not_reported", "mode": mode}, doc(model, proto, ctx, mode, label, vals, "%s, but the relay finished normally" % e)))
+            continue
         except Unconvertible as e:
             stats["reference_says_runtime_error_allowed"] = stats.get("reference_says_runtime_error_allowed", 0) + 1
             continue       # the documentation allows a runtime error here; a value is not judged either
@@ -395,7 +408,7 @@ def main():
                stubbed="C++ nd-array header and date/date.h; harness main emitted from the generated protocols.h",
                assumptions=["where the reference conversion says a runtime error is allowed (overflow, inexact narrowing, removed union case) neither an error nor a value is judged",
                             "conversions the documentation leaves open (number <-> string, float -> int rounding) are never generated"],
-               replay_fn=replay_doc, quick_budget=160, fault_keys=("old_to_new", "new_to_old", "old_new_old", "reference_says_runtime_error_allowed"))
+               replay_fn=replay_doc, quick_budget=160, fault_keys=("old_to_new", "new_to_old", "old_new_old", "reference_says_runtime_error_allowed", "reference_says_numeric_overflow"))
 
 
 if __name__ == "__main__":
